@@ -2,7 +2,9 @@
 (***************************************************************************)
 (* Gen use of FanSpeed.tla: random preset tables (1..5 distinct names,    *)
 (* percentages in any order, sometimes repeated) or the default table, a  *)
-(* consistent initial fan speed, then 10..MaxOps update requests.         *)
+(* consistent initial fan speed -- handed to NewModel as a sequence of    *)
+(* options in a random order, each alone, or not at all -- then           *)
+(* 10..MaxOps update requests.                                            *)
 (* A request either starts from a zero message ("zero": what a client     *)
 (* that sets one field sends) or from the current fan speed ("current":   *)
 (* read-modify-write; "preset": only the current preset is echoed, the    *)
@@ -43,13 +45,25 @@ Req(z, ps) ==
       index |-> IF rel THEN R(-3..3) ELSE R(-1..(Len(ps) + 1)),
       pct |-> IF rel THEN 5 * R(-6..6) ELSE IF Flip(z, 50) THEN ps[R(1..Len(ps))].pct ELSE R(Pcts)]
 
+\* a random permutation of a sequence
+RECURSIVE Shuffle(_, _)
+Shuffle(z, s) == IF s = <<>> THEN <<>>
+                 ELSE LET i == RandomElement(1..Len(s))
+                      IN <<s[i]>> \o Shuffle(z, [j \in 1..(Len(s) - 1) |-> IF j < i THEN s[j] ELSE s[j + 1]])
+
+\* the options in a random order: presets and initial fan speed in both orders, each alone, neither
 Prog(k) ==
   LET custom == Flip(k, 70)
       ps == IF custom THEN RandPresets(k) ELSE DefaultPresets
-      hasInit == custom \/ Flip(k, 50)
+      hasInit == Flip(k, 70)
+      none == [kind |-> "clock", presets |-> <<>>, init |-> DefaultInit, via |-> "model"]
+      tags == (IF custom THEN <<[none EXCEPT !.kind = "presets", !.presets = ps]>> ELSE <<>>)
+              \o (IF hasInit THEN <<[none EXCEPT !.kind = "init", !.init = Triple(ps, R(1..Len(ps))), !.via = Pick(k, <<"model", "model", "resource">>)]>> ELSE <<>>)
+              \o (IF Flip(k, 35) THEN <<none>> ELSE <<>>)
+      opts == Shuffle(k, tags)
   IN [model |-> "fanspeed", n |-> k,
-      cfg |-> [custom |-> custom, presets |-> ps, hasInit |-> hasInit,
-               init |-> IF hasInit THEN Triple(ps, R(1..Len(ps))) ELSE DefaultInit],
+      cfg |-> [opts |-> opts, custom |-> HasOpt(opts, "presets"), presets |-> ConfPresets(opts),
+               hasInit |-> HasOpt(opts, "init"), init |-> ConfInit(opts)],
       ops |-> [j \in 1..R(10..MaxOps) |-> Req(k, ps)]]
 
 GenInit == c \in { Prog(k) : k \in 1..NCases }
